@@ -323,7 +323,12 @@ Inductive hop :=
 | HItemBackwards (k : nat) (r : option nat) (x : option Q) (* set[k].backwards(r, x) *)
 | HSetBasis (j : nat) (b : bool)                           (* derived[j].basis = b *)
 | HCopy (j : nat) (b : option bool)                        (* derived[j].copy(b) *)
-| HBackwards (j : nat) (r : option nat) (x : option Q).    (* derived[j].backwards(r, x) *)
+| HBackwards (j : nat) (r : option nat) (x : option Q)     (* derived[j].backwards(r, x) *)
+| HIAdd (j k : nat)                                        (* derived[j] += derived[k] *)
+| HISub (j k : nat)                                        (* derived[j] -= derived[k] *)
+| HCab (j : nat) (sol : option vec)                        (* derived[j].correct_atomic_balance(constants); sol: what the
+                                                              linear solver returns, per chemical and by mol (None: it raises) *)
+| HSetCopy (lo n : nat) (b : option bool).                 (* the set holding members lo..lo+n-1 is copied: set.copy(b) *)
 
 Record hstate := mkhs { hp : heap; derived : list href }.
 
@@ -346,8 +351,68 @@ Definition do_backwards (s : hstate) (src : href) (r : option nat) (x : option Q
   let c := length (hp s) in
   Ok (mkhs (hp s ++ [st r']) (derived s ++ [href_of c r'])).
 
+(* a += b / a -= b: the right operand is converted to a's basis when the bases differ (a copy is
+   made for that, b itself is untouched); the result is a NEW array bound to a *)
+Definition do_iop (mws : vec) (sub : bool) (s : hstate) (j : nat) (a b : href) : res hstate :=
+  do r' <- (if sub then rsub else radd) mws (as_rxn (hp s) a) (as_rxn (hp s) b);
+  let c := length (hp s) in
+  Ok (mkhs (hp s ++ [st r']) (upd (derived s) j (href_of c r'))).
+
+(* correct_atomic_balance: the solved molar coefficients are written IN PLACE into the reaction's own
+   array (times MW on a weight basis; for a phase-tagged reaction only where an entry was non-zero),
+   then _rescale, in place too *)
+Fixpoint cab_fill (n : nat) (phase_tagged : bool) (v : vec) (old : vec) (k : nat) : vec :=
+  match old with
+  | [] => []
+  | x :: t => (if phase_tagged && qzerob x then 0 else nthq v (Nat.modulo k n)) :: cab_fill n phase_tagged v t (S k)
+  end.
+
+Definition do_cab (mws : vec) (s : hstate) (j : nat) (d : href) (sol : option vec) : res hstate :=
+  match sol with
+  | None => Err ERuntime
+  | Some v =>
+      let n := length v in
+      let r := as_rxn (hp s) d in
+      let v' := if h_wt d then vmul v mws else v in
+      let filled := cab_fill n (negb (match h_ph d with [] => true | _ => false end)) v' (st r) 0 in
+      do r' <- rescale (set_st r filled);
+      Ok (mkhs (upd (hp s) (hcell d) (st r')) (derived s))
+  end.
+
+(* set.copy(b): every row is copied to a fresh array and converted there *)
+Fixpoint do_setcopy (mws : vec) (s : hstate) (srcs : list href) (b : option bool) : res hstate :=
+  match srcs with
+  | [] => Ok s
+  | src :: t =>
+      let h := hp s in
+      let c := length h in
+      let h1 := h ++ [hget h (hcell src)] in
+      let o := mkh c (h_ridx src) (h_X src) (h_wt src) (h_ph src) in
+      match b with
+      | None => do_setcopy mws (mkhs h1 (derived s)) t b
+      | Some b' => do r' <- set_basis mws (as_rxn h1 o) b';
+                   do_setcopy mws (mkhs (upd h1 c (st r')) (derived s)) t b
+      end
+  end.
+
 Definition hstep (mws : vec) (members : list href) (s : hstate) (o : hop) : res hstate :=
   match o with
+  | HIAdd j k =>
+      match nth_error (derived s) j, nth_error (derived s) k with
+      | Some a, Some b => do_iop mws false s j a b
+      | _, _ => Err EIndex
+      end
+  | HISub j k =>
+      match nth_error (derived s) j, nth_error (derived s) k with
+      | Some a, Some b => do_iop mws true s j a b
+      | _, _ => Err EIndex
+      end
+  | HCab j sol =>
+      match nth_error (derived s) j with
+      | Some d => do_cab mws s j d sol
+      | None => Err EIndex
+      end
+  | HSetCopy lo n b => do_setcopy mws s (firstn n (skipn lo members)) b
   | HItemCopy lo k b =>
       match nth_error (skipn lo members) k with
       | Some src => do_copy mws s src b
@@ -422,15 +487,30 @@ Definition hist_run (mws : vec) (o : robj) (ops : list hop) : robj * list bool *
   let (f, oks) := hrun mws members (mkhs (map st l) []) ops in
   (rebuild o (map (as_rxn (hp f)) members), oks, map (as_rxn (hp f)) (derived f)).
 
+(* rows of set.copy(b), as the copy exposes them *)
+Definition setcopy_rows (mws : vec) (l : list rxn) (b : option bool) : res (list rxn) :=
+  build_all (map (fun r => copy_basis mws r b) l).
+
+Definition res_rows_eqb (a : res (list rxn)) (b : list rxn) : bool :=
+  match a with Ok l => list_eqb rxn_eqb l b | Err _ => false end.
+
+(* use: None = the original object is applied afterwards; Some j = the derived reaction j is *)
 Definition hist_case_eqb (other : bool) (mws : vec) (o : res robj) (ops : list hop)
-           (oks : list bool) (der : list rxn) (run : robj -> option err * vec)
+           (oks : list bool) (der : list rxn) (use : option nat) (run : robj -> option err * vec)
            (ctor_err : option err) (e : option err) (d : vec) : bool :=
   match o with
   | Err x => oerr_eqb (Some x) ctor_err
   | Ok ob =>
       let '(ob', oks', der') := hist_run mws ob ops in
+      let target := match use with
+                    | None => ob'
+                    | Some j => match nth_error der' j with
+                                | Some r => Simple (wt r) (Single r)
+                                | None => ob'
+                                end
+                    end in
       oerr_eqb None ctor_err && list_eqb Bool.eqb oks' oks && list_eqb rxn_eqb der' der &&
-      (if other then outcome_eqb_other (run ob') e d else outcome_eqb (run ob') e d)
+      (if other then outcome_eqb_other (run target) e d else outcome_eqb (run target) e d)
   end.
 
 (* ====================================================================================== *)
